@@ -131,6 +131,40 @@ def p2pLibAdmit (o : Oracle) (trusted : Option SignedHeader) (bs : Bytes) : LibV
 def p2pLibAdmitOld (o : Oracle) (trusted : Option SignedHeader) (bs : Bytes) : LibVerdict :=
   p2pLibAdmitWith libValidateOld o trusted bs
 
+/-- go-header `sync/sync_head.go` `isExpired`: `head.Time().Add(TrustingPeriod).Before(time.Now())`, in nanoseconds.
+The trusting period is a parameter (`sync.Parameters.TrustingPeriod`; ev-node passes none: the library default,
+336 h). -/
+def headExpired (tp now : Int) (head : SignedHeader) : Bool := decide (int64Of head.header.time + tp < now)
+
+/-- what go-header does with a peer's answer to the HEAD request (`Syncer.Head` / `subjectiveHead`, the path a node
+takes at start when its stored head is not recent; `Exchange.Head` → `request` → `processResponses`: `New()`,
+`UnmarshalBinary`, `Validate()`):
+* stored head within the trusting period: the answer is verified against it (`Exchange.Head` with `WithTrustedHead`,
+  then `incomingNetworkHead` → `header.Verify(subjectiveHead, answer)`) — as `p2pLibAdmit`;
+* stored head EXPIRED (`now − head.time > trustingPeriod`): "automatic subjective initialization" — the answer becomes
+  the subjective head **without `Verify` against anything the node has** (`setSubjectiveHead(trustHead)`).
+With no stored head the function is `p2pLibAdmit … none`. -/
+def p2pLibAdmitTP (tp now : Int) (o : Oracle) (trusted : Option SignedHeader) (bs : Bytes) : LibVerdict :=
+  match headerStage o bs with
+  | .ok sh =>
+    if !libValidate o sh then .rejValidate
+    else match trusted with
+      | none => .accepted
+      | some tr =>
+        if headExpired tp now tr then .accepted
+        else if libVerify tr sh then .accepted else .rejVerify
+  | _ => .rejDecode
+
+/-- height of the head of the node's P2P header store after the head request (`setSubjectiveHead`: `store.Append`
+takes the accepted answer only when it is ADJACENT to the stored head; any other accepted answer becomes the sync
+target and is not stored by this step) -/
+def staleStoreHead (tp now : Int) (o : Oracle) (head : SignedHeader) (bs : Bytes) : Nat :=
+  match headerStage o bs with
+  | .ok sh =>
+    if p2pLibAdmitTP tp now o (some head) bs = .accepted && decide (sh.header.height = head.header.height + 1)
+    then sh.header.height else head.header.height
+  | _ => head.header.height
+
 /-- the FIRST header of the P2P header store of a node without a trusted hash (`SyncService.setFirstAndStart`):
 whatever a peer answers to the single request `Exchange.GetByHeight(initial height)` — which go-header only
 DECODES, it does not call `Validate()` on it — goes to `initStoreAndStartSyncer`, which since /repo 3ea3561 calls
